@@ -351,8 +351,8 @@ def pairing(ctx):
             r.check("C01.3", var == exp, "P9::%s::elementInScope(%r)" % (f.qual, name), "%s:%d" % (PARSER_REL, c.lineno),
                     "elementInScope(%r) uses scope variant %r; the standard prescribes %r here" % (name, var, exp),
                     {"name": name, "variant": var, "expected": exp}, detail={"name": name, "variant": var})
-    if n9 < 30:
-        raise AnalysisError("P9 matched %d constant-name scope tests (expected >= 30)" % n9)
+    if n9 < 15:
+        raise AnalysisError("P9 matched %d constant-name scope tests (expected >= 15)" % n9)
     # endTagListItem: the computed variant
     f = repo.func(PARSER_REL, "InBodyPhase.endTagListItem")
     tabnames = sorted(k for k, g in en_tab.map.items() if g is f)
@@ -439,8 +439,9 @@ def frameset_ok(ctx):
     # characters: non-white-space text clears the flag, white space does not
     f = ctx.repo.func(PARSER_REL, "InBodyPhase.processCharacters")
     src = " ".join(norm(f.node).split())
-    r.check("C01.6", "any((char not in spaceCharacters for char in token['data']))" in src and "self.parser.framesetOK = False" in src,
-            "frameset-ok:characters", f.where, "non-white-space text in body no longer clears the frameset-ok flag")
+    r.idiom("C01.6", "any((char not in spaceCharacters for char in token['data']))" in src and "self.parser.framesetOK = False" in src,
+            "frameset-ok:characters", f.where, "non-white-space text in body no longer clears the frameset-ok flag",
+            wrong=[("framesetOK" not in src, None)])
     g = ctx.repo.func(PARSER_REL, "InBodyPhase.processSpaceCharactersNonPre")
     r.check("C01.6", "framesetOK" not in norm(g.node), "frameset-ok:space", g.where, "white space in body touches the frameset-ok flag")
 
@@ -895,9 +896,24 @@ def standard_tables(ctx):
                 raise AnalysisError("%s.%s vanished" % (spec["class"], spec["name"]))
             return ce.eval(node, c.module)
         if kind == "local-const":
+            if spec["name"] == "newModes":
+                return pm.new_modes          # resolved by the parser model wherever the mapping lives
             f = ctx.repo.func(spec["module"], spec["function"])
             env = ce.local_env(f.node, f.module)
             if spec["name"] not in env:
+                # a function-local table hoisted to module level keeps its role if the function still reads exactly one
+                # constant mapping of that shape
+                cands = []
+                for n in ast.walk(f.node):
+                    if isinstance(n, ast.Name) and isinstance(n.ctx, ast.Load):
+                        try:
+                            v = ce.lookup(n.id, f.module, env)
+                        except NotConstant:
+                            continue
+                        if isinstance(v, dict) and len(v) > 5 and v not in cands:
+                            cands.append(v)
+                if len(cands) == 1:
+                    return cands[0]
                 raise AnalysisError("%s: local constant %s vanished" % (spec["function"], spec["name"]))
             return env[spec["name"]]
         if kind == "listElementsMap":
